@@ -217,6 +217,8 @@ end TrTrans
 def suiteTrTrans (kvs : List (String × String)) (lines : List (String × String)) : List String :=
   let jobs : List Conc.Trans.Job := ((kvGet kvs "ops").getD "").toList.map fun ch =>
     if ch == 'O' || ch == 'F' then .open else if ch == 'C' then .close true false else .close false true
+  -- an override flipped during the run ('X') is outside the static-flag model: such traces are not judged here
+  if ((kvGet kvs "ops").getD "").toList.contains 'X' then lines.map fun _ => "skip\t-" else
   (TrTrans.conform (Conc.Trans.init false false (kvBool kvs "init" false) jobs) (lines.map (·.1))).map fun r => r ++ "\t-"
 
 end CM
